@@ -147,7 +147,9 @@ def run(chk):
                       'INVARIANT NoWriteBeforeChecks\nPROPERTY Progress\nPROPERTY Termination\n', workers=4)
     chk.add_tlc(res)
     # (b)
-    insts = [('zero3', dict(BASE, max_len=3), 'AlphaC16', None), ('wide-sim7', dict(BASE, max_len=7), 'AlphaC02wide', 'num=800' if quick else 'num=8000')]
+    nodata = {k: v for k, v in BASE.items() if k not in ('pre_data_op', 'pre_data')}
+    insts = [('zero3', dict(BASE, max_len=3), 'AlphaC16', None), ('zero2-no-predefined-data', dict(nodata, max_len=2), 'AlphaC16', None),
+             ('window-only-fill', dict(nodata, max_len=2, win_start=40, win_end=47, fill=255), 'AlphaC16', None), ('wide-sim7', dict(BASE, max_len=7), 'AlphaC02wide', 'num=800' if quick else 'num=8000')]
     if not quick:
         insts.append(('zero4', dict(BASE, max_len=4), 'AlphaC16', None))
     rendered_ok = []
